@@ -279,12 +279,12 @@ def run(index: RepoIndex, rep) -> None:
               'seed() does not forward a seed to inner_env.set_seed', 'seed')
 
 
-def _dtype_by_space_type(index: RepoIndex, f, e: ast.AST, v: str):
+def _dtype_by_space_type(index: RepoIndex, f, e: ast.AST, v: str, st: str = '', leaf=None):
     """{member of SpaceType: dtype text} denoted by a dtype expression over `v.space_type`: a
     conditional on identity / equality / membership tests, or a lookup in a module-level dict
     literal keyed by the members.  None when the expression is neither."""
     members = list(index.enum('SpaceType').members)
-    st = f'{v}.space_type'
+    st = st or f'{v}.space_type'
 
     def member(x: ast.AST):
         t = src(x)
@@ -317,18 +317,54 @@ def _dtype_by_space_type(index: RepoIndex, f, e: ast.AST, v: str):
     def val(x: ast.AST, m: str, depth: int = 4):
         if depth < 0:
             return None
-        if isinstance(x, ast.Name) and x.id in ('int', 'float'):
+        if leaf is not None:
+            lv = leaf(x)
+            if lv is not None:
+                return lv
+        elif isinstance(x, ast.Name) and x.id in ('int', 'float'):
             return x.id
         if isinstance(x, ast.IfExp):
             t = truth(x.test, m)
             return None if t is None else val(x.body if t else x.orelse, m, depth - 1)
         if isinstance(x, ast.Subscript) and src(x.slice) == st and isinstance(x.value, ast.Name):
-            tb = f.module.assigns.get(x.value.id, [])
-            if len(tb) == 1 and isinstance(tb[0], ast.Dict):
-                hits = [vv for kk, vv in zip(tb[0].keys, tb[0].values)
+            e_ = entry(x.value.id, m)
+            return None if e_ is None else val(e_[0], m, depth - 1)
+        if isinstance(x, ast.Attribute) and isinstance(x.value, ast.Subscript) and \
+                src(x.value.slice) == st and isinstance(x.value.value, ast.Name):
+            # TABLE[v.space_type].field with TABLE's values built by a NamedTuple / dataclass
+            e_ = entry(x.value.value.id, m)
+            if e_ is None or not isinstance(e_[0], ast.Call) or \
+                    not isinstance(e_[0].func, ast.Name):
+                return None
+            c_ = e_[1].classes.get(e_[0].func.id)
+            if c_ is None:
+                return None
+            fields = [s_.target.id for s_ in c_.node.body
+                      if isinstance(s_, ast.AnnAssign) and isinstance(s_.target, ast.Name)]
+            got = dict(zip(fields, e_[0].args))
+            got.update({k.arg: k.value for k in e_[0].keywords})
+            return None if x.attr not in got else val(got[x.attr], m, depth - 1)
+        return None
+
+    def entry(table: str, m: str):
+        """(value expression, defining module) of TABLE[SpaceType.<m>] for a module-level dict
+        literal (possibly wrapped in MappingProxyType / dict) of this or another module"""
+        mods = [f.module] + [mm for mm in index.modules.values()
+                             if mm.relpath.startswith('gym_gridverse/') and mm is not f.module]
+        for mm in mods:
+            tb = mm.assigns.get(table, [])
+            if len(tb) != 1:
+                continue
+            t_ = tb[0]
+            if isinstance(t_, ast.Call) and src(t_.func).split('.')[-1] in (
+                    'MappingProxyType', 'dict') and len(t_.args) == 1:
+                t_ = t_.args[0]
+            if isinstance(t_, ast.Dict):
+                hits = [vv for kk, vv in zip(t_.keys, t_.values)
                         if kk is not None and member(kk) == m]
                 if len(hits) == 1:
-                    return val(hits[0], m, depth - 1)
+                    return hits[0], mm
+            return None
         return None
     out = {m: val(e, m) for m in members}
     return None if None in out.values() else out
@@ -366,6 +402,9 @@ def check_gym_space(index: RepoIndex, rep, rule: str) -> None:
                     dte = next((x.value for x in val.keywords if x.arg == 'dtype'),
                                val.args[3] if len(val.args) > 3 else None)
                     table = _dtype_by_space_type(index, f, dte, v) if dte is not None else None
+                    if dte is not None and table is None:
+                        raise AnalysisError(f'outer_space_to_gym_space: dtype `{src(dte)[:80]}` '
+                                            f'is not readable as a table over SpaceType')
                     ok = kw.get('low') == f'{v}.lower_bound' and \
                         kw.get('high') == f'{v}.upper_bound' and \
                         table == {'CATEGORICAL': 'int', 'DISCRETE': 'int', 'CONTINUOUS': 'float'}
